@@ -55,6 +55,7 @@ def main():
     ok, out = core.gen_tables()
     if not ok:
         print("gen_tables failed:\n" + out[-2000:]); return 2
+    table_problems = [l[9:] for l in out.split("\n") if l.startswith("PROBLEM: ")]
     tdiff = core.tables_diff()
     drv_ok, tables_used, drv_log = core.ensure_driver()
     A = core.proof_layer(pid, thorough=(tier == "thorough")) if drv_ok else {
@@ -63,6 +64,9 @@ def main():
         "broken": ["models no longer compile against the regenerated tables: " + drv_log[-600:]]}
     if tdiff:
         A.setdefault("notes", []).append("generated tables differ from the committed baseline")
+    if table_problems:
+        A.setdefault("broken", []).extend("table extraction: " + t for t in table_problems)
+        A["ok"] = False
 
     mod = importlib.import_module("adapters." + pid.lower())
     ctx = Ctx(pid, tier, seed)
